@@ -653,11 +653,25 @@ def subst_lit(e, l, val, memo=None):
         elif isinstance(e, sp.core.function.AppliedUndef) and e.func.__name__ in ORDER_PREDS and len(args) == 2:
             r = _mk_lit(e.func.__name__, norm(args[0]), norm(args[1]), False)
         elif isinstance(e, sp.core.function.AppliedUndef):
-            r = e.func(*[norm(a) for a in args])
+            r = fold_atom(e.func.__name__, [norm(a) for a in args])
+            if r is None:
+                r = e.func(*[norm(a) for a in args])
         else:
             r = e.func(*args)
     memo[k] = r
     return r
+
+
+def fold_atom(name, args):
+    """value of a listed function at trivially constant arguments (pow(0, c) = 0 and pow(1, c) = 1 for a constant c > 0,
+    fabs / round / floor / ceil / sqrt of 0 or of an integer), else None"""
+    if name == 'pow' and len(args) == 2 and args[1].is_Number and args[1] > 0 and args[0] in (0, 1):
+        return args[0]
+    if name in ('round', 'floor', 'ceil', 'rint', 'ftrunc') and len(args) == 1 and args[0].is_Integer:
+        return args[0]
+    if name == 'fabs' and len(args) == 1 and args[0].is_Number:
+        return abs(args[0])
+    return None
 
 
 def pick_literal(t):
@@ -705,8 +719,36 @@ def cases(term, guard=(), assume=(), limit=MAX_CASES):
                 continue
             rec(subst_lit(t, l, val), g2)
 
-    rec(term, list(guard))
+    for g0, t0 in split_guard(list(guard), term, assume):
+        rec(t0, g0)
     return out
+
+
+def split_guard(guard, term, assume=()):
+    """a guard whose literals contain Sel nodes in their operands (a branch on a value that is itself a select) is split on
+    the inner conditions, so that every literal is Sel-free: [(guard, term)] with the same substitutions applied to the term"""
+    res = []
+    work = [(list(guard), term)]
+    steps = 0
+    while work:
+        g, t = work.pop()
+        steps += 1
+        if steps > MAX_CASES:
+            raise Undecided('guard with too many nested select cases')
+        g = [x for x in g if x != TRUE]
+        if any(x == FALSE for x in g):
+            continue
+        bad = [x for x in g if isinstance(x, sp.Basic) and x.has(Sel)]
+        if not bad:
+            if consistent(g + list(assume)):
+                res.append((g, t))
+            continue
+        l = pick_literal(bad[0])
+        for val in (True, False):
+            ll = l if val else neg(l)
+            g2 = [subst_lit(x, l, val) for x in g] + [ll]
+            work.append((g2, subst_lit(t, l, val) if isinstance(t, sp.Basic) else t))
+    return res
 
 
 def guard_cases(cond, guard=(), assume=()):
@@ -2294,6 +2336,10 @@ class Interp:
                 return IntV(N, q, sx=True, ux=both('ux') and both('sx'), mag=x.mag if x.sx else N - 1)
             ok = x.sx and y.sx
             return IntV(N, a - b * q, sx=ok, ux=False, mag=y.mag if ok else None)
+        if op in ('and', 'or', 'xor') and a.is_Integer and b.is_Integer:
+            m_ = (1 << N) - 1
+            ca, cb = int(a) & m_, int(b) & m_
+            return const_int(N, {'and': ca & cb, 'or': ca | cb, 'xor': ca ^ cb}[op])
         if op in ('and', 'or', 'xor'):
             # sign-bit manipulation of a float's bit pattern: bits(t) & signmask, | bits(|c|), ^ signmask, & ~signmask
             for u, v in ((x, y), (y, x)):
@@ -2599,7 +2645,11 @@ class Interp:
             return True, self.lanewise(lambda a: FpV(a.bits, atom(nm, a.term)), args[0])
         if stem in MATH2 and len(args) == 2 and name not in self.mod.functions:
             nm = MATH2[stem]
-            return True, self.lanewise(lambda a, b: FpV(a.bits, atom(nm, a.term, b.term)), args[0], args[1])
+
+            def m2(a, b):
+                v0 = fold_atom(nm, [norm(a.term), norm(b.term)])
+                return FpV(a.bits, v0 if v0 is not None else atom(nm, a.term, b.term))
+            return True, self.lanewise(m2, args[0], args[1])
         if stem in ('fmuladd', 'fma') and len(args) == 3:
             return True, self.lanewise(lambda a, b, c: FpV(a.bits, self.rnd(P, a.term * b.term + c.term)), *args)
         if stem in ('minnum', 'maxnum', 'fmin', 'fmax', 'minimum', 'maximum') and len(args) == 2:
